@@ -800,6 +800,68 @@ example : reprTop true (.obj .strip .none false [.min 1]
 example : reprP true (.union (.cons (.slice (.str [.sw [97]]) [.max 2]) (.cons (.tup .none [] (.cons .bool .nil)) .nil))) = true := by
   decide
 
+/-! ### conversion histories: the theorems hold at every call of every call sequence -/
+
+theorem runHistory_get (st : Persist) (h : List Conv) (i : Nat) (c : Conv) (hc : h[i]? = some c) :
+    (runHistory st h)[i]? = some (convertO c.opts c.dup c.schema) := by
+  induction h generalizing st i with
+  | nil => simp at hc
+  | cons d ds ih =>
+    cases i with
+    | zero => simp at hc; subst hc; simp [runHistory, convertCall]
+    | succ n => simp at hc; simp [runHistory]; exact ih _ n hc
+
+/-- whatever was converted before (other schemas, relatives of this one, this one itself, under any
+    options), the document of the i-th call validates exactly what Parse accepts. -/
+theorem c07_history_equiv (st : Persist) (h : List Conv) (i : Nat) (c : Conv) (j : JS) (x : Json)
+    (hc : h[i]? = some c) (hd : (runHistory st h)[i]? = some (some j))
+    (hr : reprP true c.schema = true) (hx : instOK x = true) :
+    jsValid j x = accepts c.schema x := by
+  rw [runHistory_get st h i c hc] at hd
+  simp only [Option.some.injEq, convertO] at hd
+  split at hd
+  · cases hd
+  · cases hd; exact c07_equiv_partial _ _ hr hx
+
+theorem c07_history_sound (st : Persist) (h : List Conv) (i : Nat) (c : Conv) (j : JS) (x r : Json)
+    (hc : h[i]? = some c) (hd : (runHistory st h)[i]? = some (some j))
+    (hr : reprTop true c.schema = true) (hx : instOK x = true) (hp : parse c.schema x = some r) :
+    jsValid j r = true := by
+  rw [runHistory_get st h i c hc] at hd
+  simp only [Option.some.injEq, convertO] at hd
+  split at hd
+  · cases hd
+  · cases hd; exact c07_sound _ _ _ hr hx hp
+
+theorem c07_history_complete (st : Persist) (h : List Conv) (i : Nat) (c : Conv) (j : JS) (x : Json)
+    (hc : h[i]? = some c) (hd : (runHistory st h)[i]? = some (some j))
+    (hr : reprTop true c.schema = true) (hx : instOK x = true) (hv : jsValid j x = true) :
+    (parse c.schema x).isSome = true := by
+  rw [runHistory_get st h i c hc] at hd
+  simp only [Option.some.injEq, convertO] at hd
+  split at hd
+  · cases hd
+  · cases hd; exact c07_complete _ _ hr hx hv
+
+/-- the document is a function of (options, sharing, schema): two calls on the same arguments, anywhere
+    in any two histories, from any two states, give the same document. -/
+theorem c07_history_stable (st st' : Persist) (h h' : List Conv) (i k : Nat) (c : Conv)
+    (hi : h[i]? = some c) (hk : h'[k]? = some c) :
+    (runHistory st h)[i]? = (runHistory st' h')[k]? := by
+  rw [runHistory_get st h i c hi, runHistory_get st' h' k c hk]
+
+/-- a non-trivial history: a string schema with two pattern checks is converted, then a parent holding
+    it (reused:"ref"), then the string schema again under other options — the third document is still
+    the first one, and still rejects what Parse rejects. -/
+def exChild : S := .str [.sw [97], .re .lw]
+def exParent : S := .obj .strict .none false [] (.cons [107] exChild .nil)
+def exHistory : List Conv :=
+  [⟨{}, false, exChild⟩, ⟨{ reusedRef := true }, false, exParent⟩, ⟨{ ioInput := true }, false, exChild⟩]
+
+example : (runHistory {} exHistory)[2]? = some (some (toDoc exChild))
+    ∧ jsValid (toDoc exChild) (.str [98]) = false ∧ accepts exChild (.str [98]) = false
+    ∧ reprP true exChild = true := ⟨rfl, by decide⟩
+
 /-! ### well-formedness of the emitted document -/
 
 theorem wfKws_ofList (l : List Kw) : wfKws (KwList.ofList l) = l.all wfKw := by
